@@ -1,16 +1,65 @@
 """R-ZIPTABLE (C09): member tables of the package creators and agreement between the literals that must match."""
 import re
 
-from .prog import (AnalysisBroken, key, strip, walk, const_value, enum_name)
+from .prog import (AnalysisBroken, key, strip, walk, const_value, enum_name, resolve_key)
 from .rules_wrap import r_ptrptr
 
 
-def _adds(f):
+def _adds(f, depth=0):
+    """Members added to the archive in f: direct mz_zip_writer_add_mem calls, and calls of a same-unit store helper that
+    hands its parameters on to one (summarised, three levels): name / data / length / flags are then the call's arguments."""
+    from .prog import single_assignment_locals
     out = []
-    for c in f.calls("mz_zip_writer_add_mem"):
-        name = strip(c["c"][2])
-        out.append({"call": c, "name": name["s"] if name is not None and name["k"] == "StringLiteral" else None,
-                    "data": key(c["c"][3]), "len": key(c["c"][4]), "flags": const_value(c["c"][5]), "line": c["l"]})
+    for c in f.calls():
+        callee = c.get("callee")
+        if callee == "mz_zip_writer_add_mem":
+            name = strip(c["c"][2])
+            out.append({"call": c, "name": name["s"] if name is not None and name["k"] == "StringLiteral" else None,
+                        "name_key": key(c["c"][2]), "data": key(c["c"][3]), "data_node": c["c"][3], "len": key(c["c"][4]),
+                        "flags": const_value(c["c"][5]), "flags_key": key(c["c"][5]), "line": c["l"]})
+            continue
+        h = f.unit.funcs.get(callee) if callee else None
+        if h is None or h is f or depth >= 3:
+            continue
+        inner = _adds(h, depth + 1)
+        if not inner:
+            continue
+        pidx = {q[0]: i for i, q in enumerate(h.params)}
+        args = c["c"][1:]
+        sal = single_assignment_locals(h)
+
+        def arg_of(k):
+            k = k.strip("()")
+            return args[pidx[k]] if k in pidx and pidx[k] < len(args) else None
+        for a in inner:
+            b = dict(a)
+            b["call"] = c
+            b["line"] = c["l"]
+            n = arg_of(a["name_key"])
+            if a["name"] is None and n is not None:
+                sn = strip(n)
+                b["name"] = sn["s"] if sn is not None and sn["k"] == "StringLiteral" else None
+                b["name_key"] = key(n)
+            d = arg_of(a["data"])
+            if d is not None:
+                b["data"] = key(d)
+                b["data_node"] = d
+            ln = arg_of(a["len"])
+            if ln is not None:
+                b["len"] = key(ln)
+            else:
+                lk = a["len"].strip("()")
+                init = sal.get(lk)
+                si = strip(init) if init is not None else None
+                if si is not None and si["k"] == "CallExpr" and si.get("callee") == "strlen":
+                    d2 = arg_of(key(si["c"][1]))
+                    if d2 is not None:
+                        b["len"] = "strlen(%s)" % key(d2)
+            fl = arg_of(a.get("flags_key") or "")
+            if fl is not None:
+                b["flags"] = const_value(fl)
+                b["flags_key"] = key(fl)
+            out.append(b)
     return out
 
 
@@ -27,6 +76,9 @@ def _literals(P, unit):
 def _data_origin(f, add):
     """What feeds the data argument of an add call: callee name of the latest assignment to the data variable
     before the call, or the argument key itself."""
+    dn = strip(add.get("data_node")) if add.get("data_node") is not None else None
+    if dn is not None and dn["k"] == "CallExpr" and dn.get("callee"):
+        return dn["callee"]
     k = add["data"]
     best = None
     for x in f.walk():
@@ -131,7 +183,7 @@ def r_ziptable(P, chk):
         fin = [c for c in f.calls("mz_zip_writer_finalize_heap_archive")]
         ok = len(fin) == 1
         if ok:
-            a = [key(x) for x in fin[0]["c"][2:4]]
+            a = [resolve_key(f, x).replace("(", "").replace(")", "").replace(" ", "") for x in fin[0]["c"][2:4]]
             ok = a == ["&result->str", "&result->currentStringLength"] and f.cfg.block_postdominates(f.block_of(fin[0]), f.cfg.entry)
             rets = [n for n in f.walk() if n["k"] == "ReturnStmt" and n["c"] and n["c"][0] is not None]
             ok = ok and all(key(r["c"][0]) == "result" for r in rets)
